@@ -20,7 +20,13 @@ def active(prop):
 
 def match(known, failure):
     for k in known:
-        fn = PREDICATES.get(k.get("predicate"))
+        pred = k.get("predicate") or ""
+        if pred.startswith("tag:"):
+            # the oracle attributes the failure to this specific defect by attaching exactly this tag
+            if pred[4:] in failure.get("tags", []):
+                return k
+            continue
+        fn = PREDICATES.get(pred)
         if fn is not None:
             try:
                 if fn(failure):
